@@ -271,6 +271,17 @@ fn xlsx_end_to_end(tier: Tier, seed: u64, idx: u64, of: u64, stats: &mut Stats) 
                     if let Ok((true, o2, _)) = run(&["--account=", "--no-fx"]) { let want_nofx = want.iter().filter(|w| !w.security.ends_with(".FX")).count(); if count_rows(&o2).len() != want_nofx { fail(stats, format!("--no-fx: {} rows, expected {want_nofx}", count_rows(&o2).len())); } }
                     if let Ok((true, o3, _)) = run(&["--account=", "--security", "^FOO$"]) { let w = want.iter().filter(|w| w.security == "FOO").count(); if count_rows(&o3).len() != w { fail(stats, format!("--security ^FOO$: {} rows, expected {w}", count_rows(&o3).len())); } }
                     if let Ok((true, o4, _)) = run(&["--account", "TFSA"]) { let w = want.iter().filter(|w| w.registered).count(); let got = count_rows(&o4).len(); if got > want.len() || (e.rows.iter().all(|a| !a.cells["Account Type"].contains("RRSP")) && got != w) { fail(stats, format!("--account TFSA: {got} rows, expected {w}")); } }
+                    // --account is a regular expression over '<account type> <account number>' (one string): the whole string, either part
+                    let mut accounts: Vec<(String, String)> = e.rows.iter().map(|a| (a.cells["Account Type"].clone(), a.cells["Account #"].clone())).collect(); accounts.sort(); accounts.dedup();
+                    for (ty, num) in accounts.iter().take(2) {
+                        let only = |pred: &dyn Fn(&str) -> bool| -> usize { let sub = Export { rows: e.rows.iter().filter(|a| pred(&format!("{} {}", a.cells["Account Type"], a.cells["Account #"]))).cloned().collect(), layout: e.layout.clone(), numeric_cols: e.numeric_cols.clone(), no_sort: e.no_sort }; expected(&sub).0.len() };
+                        let joined = format!("{ty} {num}");
+                        for pat in [format!("^{}$", regex::escape(&joined)), regex::escape(&joined), format!("^{}", regex::escape(ty)), format!("{}$", regex::escape(num)), format!("{} {}", &ty[ty.len().saturating_sub(3)..], &num[..2.min(num.len())])] {
+                            let re = regex::Regex::new(&pat).unwrap();
+                            let w = only(&|s: &str| re.is_match(s));
+                            match run(&["--account", &pat]) { Ok((true, o, _)) => { let got = count_rows(&o).len(); if got != w { fail(stats, format!("--account {pat:?}: {got} rows, expected {w} (the pattern is matched against '<account type> <account number>')")); } } Ok((false, _, er)) => { if w > 0 && !er.contains("account") { fail(stats, format!("--account {pat:?} fails: {er}")); } } Err(p) => fail(stats, format!("panic: {}", p.sig())) }
+                        }
+                    }
                     if let Ok((true, o5, _)) = run(&["--account=", "--usd-exchange-rate", "1.25"]) { let rows = count_rows(&o5); let hdr: Vec<String> = csv::ReaderBuilder::new().from_reader(o5.as_bytes()).headers().map(|h| h.iter().map(|s| s.to_string()).collect()).unwrap_or_default(); if let (Some(ci), Some(ri)) = (hdr.iter().position(|h| h == "currency"), hdr.iter().position(|h| h == "exchange rate")) { if rows.iter().any(|r| r[ci] == "USD" && r[ri] != "1.25") { fail(stats, "--usd-exchange-rate not applied to every USD row".into()); } } }
                 }
             }
